@@ -117,14 +117,18 @@ func (x *Exec) callFunc(fr *Frame, st *State, fn *ssa.Function, free []Value, ar
 	} else if res.Len() > 1 {
 		rt = res
 	}
-	if spec != nil && !spec.Inline {
+	forceInline := false
+	if fr.spec != nil && contains(fr.spec.InlineCalls, key) {
+		forceInline = true
+	}
+	if spec != nil && !spec.Inline && !forceInline {
 		x.usedSpecs[key] = true
 		if spec.Assume {
 			x.assumedSpecs[key] = true
 		}
 		return x.applyContract(fr, st, spec, key, x.paramNames(fn, spec), args, rt, resultNames(fn.Signature), pos)
 	}
-	if x.canInline(fn, spec) {
+	if forceInline || x.canInline(fn, spec) {
 		return x.inline(fr, st, fn, spec, free, args, pos)
 	}
 	x.note("call of %s without contract and not inlinable: everything havocked", key)
